@@ -106,6 +106,33 @@ void run_case(Ctx &c) {
         // the monitor's own HDF5 handles on the victim and its judged descendants, taken before the delete: afterwards they tell how many
         // hard links HDF5 itself still counts for each object, independent of what nix reports
         std::map<std::string, hid_t> pre; pre[v.id] = entity_open(v.id); for (auto &did : v.desc_ids) if (!pre.count(did)) pre[did] = entity_open(did);
+        // handles of the victim (and of its judged descendants) obtained along OTHER routes than the container it is deleted from: through a
+        // holder's link to it or to one of its ancestors (entity.sources() / metadata() / section link, then down the tree), tag references,
+        // positions / extents, feature data, group members. They are the same entities and must turn invalid just the same.
+        std::vector<std::pair<std::string, std::function<bool()>>> routes; std::vector<std::string> route_names;
+        { std::set<std::string> targets(v.desc_ids.begin(), v.desc_ids.end()); targets.insert(v.id);
+          auto hit = [&](const std::string &id, std::function<bool()> fn, const char *route) { if (targets.count(id) && routes.size() < 60) { routes.emplace_back(id, fn); route_names.push_back(route); } };
+          std::function<void(const Source &, int, const char *)> wsrc = [&](const Source &s0, int depth, const char *route) { Source S = s0; hit(S.id(), [S] { return S.isValidEntity(); }, route); if (depth < 5) for (auto &ch : S.sources()) wsrc(ch, depth + 1, route); };
+          std::function<void(const Section &, int, const char *)> wsec = [&](const Section &s0, int depth, const char *route) { Section S = s0; hit(S.id(), [S] { return S.isValidEntity(); }, route); if (depth < 5) for (auto &ch : S.sections()) wsec(ch, depth + 1, route); };
+          try {
+            for (auto &B : g.f.blocks()) {
+                try { Section m = B.metadata(); if (m) wsec(m, 0, "block.metadata"); } catch (std::exception &) {}
+                for (auto &A : B.dataArrays()) { try { for (auto &so : A.sources()) wsrc(so, 0, "array.sources"); Section m = A.metadata(); if (m) wsec(m, 0, "array.metadata"); } catch (std::exception &) {} }
+                for (auto &T : B.tags()) { try { for (auto &so : T.sources()) wsrc(so, 0, "tag.sources"); Section m = T.metadata(); if (m) wsec(m, 0, "tag.metadata");
+                        for (auto &ra : T.references()) { DataArray R = ra; hit(R.id(), [R] { return R.isValidEntity(); }, "tag.references"); }
+                        for (auto &ft : T.features()) { try { DataArray R = ft.data(); if (R) hit(R.id(), [R] { return R.isValidEntity(); }, "feature.data"); } catch (std::exception &) {} } } catch (std::exception &) {} }
+                for (auto &T : B.multiTags()) { try { for (auto &so : T.sources()) wsrc(so, 0, "multi_tag.sources");
+                        for (auto &ra : T.references()) { DataArray R = ra; hit(R.id(), [R] { return R.isValidEntity(); }, "multi_tag.references"); }
+                        try { DataArray P = T.positions(); if (P) hit(P.id(), [P] { return P.isValidEntity(); }, "multi_tag.positions"); } catch (std::exception &) {}
+                        try { DataArray E = T.extents(); if (E) hit(E.id(), [E] { return E.isValidEntity(); }, "multi_tag.extents"); } catch (std::exception &) {} } catch (std::exception &) {} }
+                for (auto &G : B.groups()) { try { for (auto &x : G.dataArrays()) { DataArray R = x; hit(R.id(), [R] { return R.isValidEntity(); }, "group.dataArrays"); } for (auto &x : G.tags()) { Tag R = x; hit(R.id(), [R] { return R.isValidEntity(); }, "group.tags"); }
+                        for (auto &x : G.multiTags()) { MultiTag R = x; hit(R.id(), [R] { return R.isValidEntity(); }, "group.multiTags"); } for (auto &x : G.dataFrames()) { DataFrame R = x; hit(R.id(), [R] { return R.isValidEntity(); }, "group.dataFrames"); } } catch (std::exception &) {} }
+                for (auto &S0 : B.sources()) { try { Section m = S0.metadata(); if (m) wsec(m, 0, "source.metadata"); } catch (std::exception &) {} }
+            }
+            std::function<void(const Section &, int)> links = [&](const Section &s0, int depth) { try { Section l = s0.link(); if (l) wsec(l, 0, "section.link"); } catch (std::exception &) {} if (depth < 5) for (auto &ch : s0.sections()) links(ch, depth + 1); };
+            for (auto &S0 : g.f.sections()) links(S0, 0);
+          } catch (std::exception &) {}
+          c.count("other_route_handles", (long)routes.size()); }
         int how = (int)r.u(3);
         c.op("delete " + v.kind + " by-" + (how == 0 ? "name" : how == 1 ? "id" : "handle") + " | '" + v.name.substr(0, 30) + "' subtree=" + str(dead.size()) + " inlinks=" + str(inlinks));
         bool res = false; try { res = v.del(how); } catch (std::exception &e) { c.check(false, "C04/delete-threw/" + v.kind, std::string("delete threw: ") + e.what()); for (auto &kv : pre) if (kv.second >= 0) H5Oclose(kv.second); continue; }
@@ -124,6 +151,9 @@ void run_case(Ctx &c) {
         if (val) { std::string cls = classify(v.id); c.check(false, "C04/stale-handle-valid/" + cls + (cls == "still-reachable" ? "/" + v.kind : ""), "handle of deleted " + v.kind + " '" + v.name.substr(0, 40) + "' still reports isValidEntity(); an object with its id is " + (cls == "still-reachable" ? "still reachable from the root group" : "not reachable from the root group (only objects unlinked earlier still link to it)")); } else c.check(true, "", "");
         { size_t di = 0; for (auto &dv : v.desc_valid) { bool x = true; try { x = dv(); } catch (std::exception &) { x = false; } std::string did = di < v.desc_ids.size() ? v.desc_ids[di] : ""; di++;
             if (x) { std::string cls = did.empty() ? "still-reachable" : classify(did); c.check(false, "C04/stale-handle-valid/" + cls + (cls == "still-reachable" ? "/descendant-of-" + v.kind : ""), "handle of a sub-section / sub-source of deleted " + v.kind + " still reports isValidEntity()"); } else c.check(true, "", ""); } }
+        for (size_t ri = 0; ri < routes.size(); ri++) { bool x = true; try { x = routes[ri].second(); } catch (std::exception &) { x = false; }
+            if (x) { std::string cls = classify(routes[ri].first); c.check(false, "C04/stale-handle-valid/" + cls + (cls == "unreachable-but-link-count-positive" ? std::string() : "/other-route/" + route_names[ri]), "a handle of the deleted " + v.kind + " (or of a sub-source / sub-section of it) that was obtained through " + route_names[ri] + " before the delete still reports isValidEntity()"); }
+            else c.check(true, "", ""); }
         for (auto &dv : v.desc_logged) { bool x = true; try { x = dv(); } catch (std::exception &) { x = false; } if (x) c.count("observation:content-handle-of-deleted-parent-still-valid"); }
         for (auto &kv : pre) if (kv.second >= 0) H5Oclose(kv.second);
         c.count("deletions"); c.count("deleted_entities", (long)dead.size()); c.count("inlinks_removed", (long)inlinks); c.count("victim:" + v.kind);
